@@ -5,6 +5,10 @@ import (
 	"fmt"
 	"strings"
 
+	"crypto/elliptic"
+
+	"github.com/ontio/ontology-crypto/ec"
+	"github.com/ontio/ontology-crypto/keypair"
 	"github.com/polynetwork/poly/common"
 	"polyverif/internal/hx"
 )
@@ -149,6 +153,27 @@ func (s *sc) mixedCase(pk string) string {
 		}
 	}
 	return string(b)
+}
+
+// otherEncoding: trailing bytes, the uncompressed form, or the labelled form of a compressed P-256 key.
+func otherEncoding(pk string, how int) string {
+	b, err := hex.DecodeString(pk)
+	if err != nil {
+		return pk
+	}
+	k, err := keypair.DeserializePublicKey(b)
+	if err != nil {
+		return pk
+	}
+	switch how {
+	case 0:
+		return pk + "00"
+	case 1:
+		if e, ok := k.(*ec.PublicKey); ok {
+			return hex.EncodeToString(elliptic.Marshal(e.Curve, e.X, e.Y))
+		}
+	}
+	return "1202" + pk // PK_ECDSA, P256 label, then the compressed point
 }
 
 func hexName(s string) string { return hex.EncodeToString([]byte(s)) }
@@ -402,11 +427,14 @@ func (f *gov) genPool(s *sc) {
 		owners := []actor{s.newAddr(), s.newAddr()}
 		all := append(append([]actor{}, s.vals...), s.extra...)
 		spell := func(a actor) string {
-			switch r.Rng.Intn(6) {
+			switch r.Rng.Intn(8) {
 			case 0:
 				return s.upper(a.pk)
 			case 1:
 				return s.mixedCase(a.pk)
+			case 2:
+				// other byte strings that deserialize to the same key
+				return otherEncoding(a.pk, r.Rng.Intn(3))
 			}
 			return a.pk
 		}
@@ -542,6 +570,13 @@ func (f *gov) genPool(s *sc) {
 					signer = s.pick(s.outs).hex()
 				}
 				s.do("updcfg %s %s %d %d %d %d", signer, ahex(op), 4999+r.Rng.Intn(3), 4999+r.Rng.Intn(3), 9+r.Rng.Intn(3), 9999+r.Rng.Intn(3))
+			case x < 94:
+				// initConfig is a registered method: anybody can send it again
+				var peers []string
+				for j, a := range s.extra[:1+r.Rng.Intn(3)] {
+					peers = append(peers, fmt.Sprintf("%d:%s:%s", j+1, a.pk, a.hex()))
+				}
+				s.do("init 5 %s", strings.Join(peers, " "))
 			default:
 				_ = ownerOf
 				f.w.height++
